@@ -145,6 +145,11 @@ func DrawCfg(r *sim.RNG) *Cfg {
 		c.DealerBlind = []int64{10, 100, 7}[r.Intn(3)]
 		c.Ante = []int64{1, 10, 5}[r.Intn(3)]
 	}
+	if r.Chance(0.03) {
+		// ante-only game: no blind of any kind (the blinds step is skipped)
+		c.SB, c.BB, c.DealerBlind = 0, 0, 0
+		c.Ante = []int64{1, 10, 5, 25}[r.Intn(4)]
+	}
 	c.Limit = "no"
 	if r.Chance(0.25) {
 		c.Limit = "pot"
@@ -181,6 +186,12 @@ func DrawCfg(r *sim.RNG) *Cfg {
 	unit := c.BB
 	if unit == 0 {
 		unit = c.DealerBlind
+	}
+	if unit == 0 {
+		unit = c.Ante
+	}
+	if unit == 0 {
+		unit = 1
 	}
 	style := r.Weighted([]int{30, 30, 25, 15}) // deep, mixed, short, tiny
 	for i := range c.Seats {
